@@ -116,6 +116,11 @@ ATTRS = ['upper', 'format', '__class__', '__len__', '__init__', '__mro__', '__su
          '__reduce__', '__getattribute__', '_x', '__', 'imag', 'mro', '__builtins__', '__self__', '__func__', '__code__', '__module__']
 
 
+SHADOW_NAMES = ['open', 'len', 'print', 'exec', 'input', 'eval', 'compile', '__import__', 'breakpoint']
+NESTED = ["any(S(A) for _ in 'a')", "[S(A) for _ in 'a']", "(lambda: S(A))()", "max([0], key=lambda _: S(A))", "list(map(lambda _: S(A), 'a'))",
+          "{_: S(A) for _ in 'a'}", "sorted('ab', key=lambda _: S(A))", "[0 for _ in 'a' if S(A)]", "(lambda f=S: f(A))()", "next(S(A) for _ in 'a')"]
+
+
 def gen_expr(rnd, names):
     r = rnd.random()
     if r < 0.30:
@@ -347,10 +352,20 @@ def run_shard(sh, n):
                 expr = 'f' + repr(expr)
             d, info = check_direct(expr, {'n': 'abc', 'k': 3})
         elif route == 'shadow':
-            sname = rnd.choice(['open', 'len', 'print', 'exec', 'input'])
-            e2 = rnd.choice([f'{sname}.upper()', f'{sname} + "x"', f'{{{sname}}}', f'{sname}', f'{sname}("x")'])
+            sname = rnd.choice(SHADOW_NAMES)
+            if rnd.random() < 0.5:
+                e2 = rnd.choice([f'{sname}.upper()', f'{sname} + "x"', f'{{{sname}}}', f'{sname}', f'{sname}("x")'])
+            else:
+                # the AST key shadows the builtin for the safety walk; inside a nested scope (generator expression, lambda,
+                # comprehension) the evaluation's locals are not visible, so the name must still not resolve to the real builtin
+                e2 = rnd.choice(NESTED).replace('S', sname).replace('A', rnd.choice(["'/etc/hostname'", "'1'", "'os'", "'1', 'x', 'eval'", 'n']))
+                cls.append('shadow:nested-scope')
             expr = e2
-            d, info = check_parser(e2, 'const', sname)
+            if rnd.random() < 0.5:
+                d, info = check_parser(e2, 'const', sname)
+            else:
+                route = 'shadow-direct'
+                d, info = check_direct(e2, {'n': 'abc', 'k': 3, sname: 'abc'})
         else:
             d, info = check_parser(expr, route.split(':')[1], None)
         if info.get('skip'):
@@ -360,7 +375,8 @@ def run_shard(sh, n):
             cls.append('eval-safe' if info['safe'] else 'rejected')
         sh.case((expr, route), nontriv, cls, sample=dict(expression=expr, route=route, info={k: v for k, v in info.items() if k != 'skip'}))
         if d is not None:
-            sh.fail(d['bucket'], dict(expr=expr, route=route, shadow=expr if route == 'shadow' else None), d)
+            sh.fail(d['bucket'], dict(expr=expr, route=route, shadow=expr if route.startswith('shadow') else None,
+                                      sname=sname if route.startswith('shadow') else None), d)
     hyp_run(sh, gen.rnds(), body, n)
     # two-step histories
     if sh.index == 0:
@@ -381,8 +397,11 @@ def replay(case):
         if d is None:
             d = check_positive(case['expr'], {'n': 'abc', 'k': 3}) if has_dunder_attr(case['expr']) is False and not impure_calls(case['expr'], {'n', 'k'}) else None
         return d
-    if r == 'shadow':
-        sname = next((s for s in ('open', 'len', 'print', 'exec', 'input') if case['expr'].startswith(s) or '{' + s in case['expr']), 'open')
+    if r in ('shadow', 'shadow-direct'):
+        sname = case.get('sname') or next((s for s in SHADOW_NAMES if case['expr'].startswith(s) or '{' + s in case['expr'] or s + '(' in case['expr']), 'open')
+        if r == 'shadow-direct':
+            d, _ = check_direct(case['expr'], {'n': 'abc', 'k': 3, sname: 'abc'})
+            return d
         d, _ = check_parser(case['expr'], 'const', sname)
         return d
     d, _ = check_parser(case['expr'], r.split(':')[1], None)
